@@ -52,6 +52,7 @@ type Compiler struct {
 	file            *parser.SourceFile
 	parent          *Compiler
 	modulePath      string
+	moduleKey       string // identity of the module being compiled ("" = main)
 	importDir       string
 	importFileExt   []string
 	constants       []Object
@@ -1023,13 +1024,24 @@ func (c *Compiler) compileForInStmt(stmt *parser.ForInStmt) error {
 func (c *Compiler) checkCyclicImports(
 	node parser.Node,
 	modulePath string,
+	moduleKey string,
 ) error {
-	if c.modulePath == modulePath {
+	if c.moduleKey == moduleKey {
 		return c.errorf(node, "cyclic module import: %s", modulePath)
 	} else if c.parent != nil {
-		return c.parent.checkCyclicImports(node, modulePath)
+		return c.parent.checkCyclicImports(node, modulePath, moduleKey)
 	}
 	return nil
+}
+
+// moduleKeyOf identifies a module for the cycle check and the compiled-module
+// cache: a module-map entry and a module file are different modules even if
+// the entry's name spells the file's path.
+func moduleKeyOf(modulePath string, isFile bool) string {
+	if isFile {
+		return "file:" + modulePath
+	}
+	return "name:" + modulePath
 }
 
 func (c *Compiler) compileModule(
@@ -1038,11 +1050,12 @@ func (c *Compiler) compileModule(
 	src []byte,
 	isFile bool,
 ) (*CompiledFunction, error) {
-	if err := c.checkCyclicImports(node, modulePath); err != nil {
+	moduleKey := moduleKeyOf(modulePath, isFile)
+	if err := c.checkCyclicImports(node, modulePath, moduleKey); err != nil {
 		return nil, err
 	}
 
-	compiledModule, exists := c.loadCompiledModule(modulePath)
+	compiledModule, exists := c.loadCompiledModule(moduleKey)
 	if exists {
 		return compiledModule, nil
 	}
@@ -1078,7 +1091,7 @@ func (c *Compiler) compileModule(
 			"too many local variables in module: %d (max %d)",
 			compiledFunc.NumLocals, maxOperand1+1)
 	}
-	c.storeCompiledModule(modulePath, compiledFunc)
+	c.storeCompiledModule(moduleKey, compiledFunc)
 	return compiledFunc, nil
 }
 
@@ -1171,6 +1184,7 @@ func (c *Compiler) fork(
 ) *Compiler {
 	child := NewCompiler(file, symbolTable, nil, c.modules, c.trace)
 	child.modulePath = modulePath // module file path
+	child.moduleKey = moduleKeyOf(modulePath, isFile)
 	child.parent = c              // parent to set to current compiler
 	child.allowFileImport = c.allowFileImport
 	child.importDir = c.importDir
